@@ -197,7 +197,7 @@ def opt_hint(rows, obj, names):
     vn, vd = val.numerator, val.denominator
     t = {"co": {v: a * vd for v, a in obj.items()}, "c": vn, "k": vd}
     c = cert(rows, names, t, exact_only=True, box=False)
-    if c is None or not witness_fits(rows, t, q, d):
+    if c is None or not holds_fits(rows + [t], q, d):       # the optimum certificate evaluates rows exactly, without tolerance arithmetic
         return base
     base.update(kind="optimal", q=q, d=d, vn=vn, vd=vd, mu=c["mu"], lam=c["lam"])
     return base
@@ -210,6 +210,15 @@ _SCHEDULE = [(5, 1), (5, 2), (50, 1), (50, 2), (50, 3), (50, 4), (BOX, 1), (BOX,
 def _lin(co, X):
     terms = [a * X[v] for v, a in co.items() if a != 0]
     return z3.Sum(terms) if terms else z3.IntVal(0)
+
+
+def holds_fits(rows_all, q, d):
+    """magnitude pre-check for evaluating  row.q <= c*d  (no tolerance arithmetic) in TLC's integers"""
+    for r in rows_all:
+        acc = sum(abs(a * q.get(v, 0)) for v, a in r["co"].items())
+        if max(acc, abs(r["c"] * d)) > INT_MAX:
+            return False
+    return True
 
 
 def witness_fits(rows_all, t, q, d):
